@@ -62,3 +62,16 @@ m("c16-log-twice-on-change", "C16", "decorator/logger.py",
   "        self.target.demand = value\n\n    @property\n    def name",
   "        if value != self.target.demand and value > 90:\n            self._logger.log(self.level, self.message, {'value': value, 'demand': 0, 'supply': 0, 'utilisation': 0, 'allocation': 0, 'consumption': 0, 'target': self.target})\n        self.target.demand = value\n\n    @property\n    def name")
 m("c16-name-ignored", "C16", "decorator/logger.py", "        self._logger = logging.getLogger(value)", "        self._logger = logging.getLogger('cobald.' + value)")
+# ---- C17
+m("c17-key-eq-unescaped", "C17", "monitor/format_line.py", 'return key.replace(r",", r"\\,").replace(r"=", r"\\=").replace(r" ", r"\\ ")', 'return key.replace(r",", r"\\,").replace(r" ", r"\\ ")')
+m("c17-name-comma-unescaped", "C17", "monitor/format_line.py", 'output_str = name.replace(r",", r"\\,").replace(r" ", r"\\ ")', 'output_str = name.replace(r" ", r"\\ ")')
+m("c17-field-backslash", "C17", "monitor/format_line.py", """return '"' + field.replace("\\\\", r"\\\\").replace('"', r"\\"") + '"'""", """return '"' + field.replace('"', r"\\"") + '"'""")
+m("c17-resolution-after-ns", "C17", "monitor/format_line.py", "record.created // self._resolution * self._resolution", "record.created * 1e9 // self._resolution * self._resolution / 1e9")
+m("c17-defaults-win", "C17", "monitor/format_line.py",
+  "        tags = self._default_tags.copy()\n        tags.update(\n            {key: value for key, value in args.items() if key in self._tags_whitelist}\n        )",
+  "        tags = {key: value for key, value in args.items() if key in self._tags_whitelist}\n        tags.update(self._default_tags)")
+m("c17-tags-also-fields", "C17", "monitor/format_line.py", "self._fields_blacklist = self._tags_whitelist | set(RECORD_ATTRIBUTES)", "self._fields_blacklist = set(RECORD_ATTRIBUTES)")
+m("c17-json-merge-order", "C17", "monitor/format_json.py", '        data.update(args)\n', '        for k, v in args.items():\n            data.setdefault(k, v)\n')
+m("c17-json-time-after-data", "C17", "monitor/format_json.py", '        data.update(args)\n        return json.dumps(data)', '        data.update(args)\n        if self._add_time:\n            data["time"] = self.formatTime(record, self.datefmt)\n        return json.dumps(data)')
+m("c17-quote-again", "C17", "monitor/format_line.py", '"%s=%s" % (_escape_key(key), _escape_field(value))\n', '("%s=%s" % (_escape_key(key), _escape_field(value))).replace("\'", \'"\')\n')
+m("c17-ts-round-nearest", "C17", "monitor/format_line.py", "record.created // self._resolution * self._resolution", "round(record.created / self._resolution) * self._resolution")
